@@ -33,7 +33,7 @@ use hickory_proto::op::{DnsRequest, DnsRequestOptions, DnsResponse, Message, Mes
 use hickory_proto::rr::{Name, RData, Record, RecordType};
 use hickory_resolver::caching_client::CachingClient;
 use hickory_resolver::recursor::{Recursor, RecursorError, RecursorOptions};
-use inet::{is_denied_answer, is_denied_server, n, rec_a, rec_cname, rec_ns, Exchange, Injection, Internet, Lame, Net, Server, Zone};
+use inet::{is_denied_server, n, rec_a, rec_cname, rec_ns, Exchange, Injection, Internet, Lame, Net, Server, Zone};
 use serde_json::{json, Value};
 use vcore::{fnv_str, Ctx, Local};
 
@@ -164,7 +164,7 @@ fn build(spec: &Spec) -> Internet {
     let mut zones: Vec<Zone> = vec![];
     let mut servers: Vec<Server> = vec![];
     // root
-    zones.push(Zone { name: Name::root(), parent: None, servers: vec![0], ns_names: vec![n("a-root.")], glue: true, records: vec![rec_a(&n("a-root."), server_addr(ROOT, 0))] });
+    zones.push(Zone { name: Name::root(), parent: None, servers: vec![0], ns_names: vec![n("a-root.")], glue: true, records: vec![rec_a(&n("a-root."), server_addr(ROOT, 0)), rec_a(&n("www-root."), Ipv4Addr::new(12, 0, 0, 80))] });
     servers.push(Server { ip: server_addr(ROOT, 0), zones: vec![ROOT], lame: Lame::None });
     for z in [T, O, LT, VO] {
         let name = n(ZONE_NAMES[z]);
@@ -297,14 +297,25 @@ fn victims(hz: usize) -> (usize, usize, &'static str) {
         T => (VO, O, "www.o."),
         LT => (VO, O, "www.t."),
         O => (LT, T, "www.t."),
+        // the root has no victims (everything is in its bailiwick); only the filter kinds apply
+        ROOT => (VO, O, "www.o."),
         _ => (LT, T, "www.o."),
+    }
+}
+
+/// A name of the hostile zone itself.
+fn own_name(label: &str, hz: usize) -> Name {
+    if hz == ROOT {
+        n(&format!("{label}-root."))
+    } else {
+        n(&format!("{label}.{}", ZONE_NAMES[hz]))
     }
 }
 
 fn injection(hz: usize, kind: usize, section: usize) -> Injection {
     let hzn = ZONE_NAMES[hz];
     let (vz, vp, sib) = victims(hz);
-    let evil = n(&format!("evil.{hzn}"));
+    let evil = own_name("evil", hz);
     let evil_glue = rec_a(&evil, Ipv4Addr::new(6, 6, 6, 2));
     let mut main: Vec<Record> = vec![];
     let mut extra_additional: Vec<Record> = vec![];
@@ -324,33 +335,37 @@ fn injection(hz: usize, kind: usize, section: usize) -> Injection {
         }
         4 => {
             // a CNAME from a name of the hostile zone to the victim, with "the victim's address"
-            main.push(rec_cname(&n(&format!("www.{hzn}")), &n(&format!("www.{}", ZONE_NAMES[vz]))));
+            main.push(rec_cname(&own_name("www", hz), &n(&format!("www.{}", ZONE_NAMES[vz]))));
             main.push(rec_a(&n(&format!("www.{}", ZONE_NAMES[vz])), Ipv4Addr::new(6, 6, 6, 3)));
         }
-        5 => main.push(rec_a(&n(&format!("www.{hzn}")), Ipv4Addr::new(6, 6, 8, 1))),
+        5 => main.push(rec_a(&own_name("www", hz), Ipv4Addr::new(6, 6, 8, 1))),
         6 => {
             // in-bailiwick NS + glue at an address the server filter denies
-            let host = n(&format!("nsd.{hzn}"));
+            let host = own_name("nsd", hz);
             main.push(rec_ns(&n(hzn), &host));
-            main.push(rec_ns(&n(&format!("www.{hzn}")), &host));
+            main.push(rec_ns(&own_name("www", hz), &host));
+            if hz == ROOT {
+                // the root may (legitimately) delegate a TLD to its host at the denied address
+                main.push(rec_ns(&n("t."), &host));
+            }
             // the host's address both as glue and in the chosen section (so that a direct
             // question for the host's address is answered with it as well)
             main.push(rec_a(&host, Ipv4Addr::new(6, 6, 7, 1)));
             extra_additional.push(rec_a(&host, Ipv4Addr::new(6, 6, 7, 1)));
         }
         7 => main.push(rec_a(&n(sib), Ipv4Addr::new(6, 6, 6, 5))),
-        10 => main.push(rec_cname(&n(&format!("www.{}", ZONE_NAMES[vz])), &n(&format!("www.{hzn}")))),
+        10 => main.push(rec_cname(&n(&format!("www.{}", ZONE_NAMES[vz])), &own_name("www", hz))),
         11 => main.push(Record::from_rdata(
             n(ZONE_NAMES[vz]),
             60,
-            RData::SOA(hickory_proto::rr::rdata::SOA::new(n(&format!("evil.{hzn}")), n("h.invalid."), 9, 60, 60, 60, 60)),
+            RData::SOA(hickory_proto::rr::rdata::SOA::new(own_name("evil", hz), n("h.invalid."), 9, 60, 60, 60, 60)),
         )),
         9 => {
             // NS records for the hostile zone's OWN names (in bailiwick) that name a host of the
             // victim zone, with forged glue for that host (out of bailiwick)
             let host = n(&format!("ns-forged.{}", ZONE_NAMES[vz]));
             for label in ["www", "nx", "alias", "other"] {
-                main.push(rec_ns(&n(&format!("{label}.{hzn}")), &host));
+                main.push(rec_ns(&own_name(label, hz), &host));
             }
             extra_additional.push(rec_a(&host, Ipv4Addr::new(6, 6, 6, 7)));
         }
@@ -376,6 +391,58 @@ fn merge(a: &Injection, b: &Injection) -> Injection {
     m.authorities.extend(b.authorities.iter().cloned());
     m.additionals.extend(b.additionals.iter().cloned());
     m
+}
+
+// ------------------------------------------------------------------------------------------
+// filter configurations (reference semantics: the table in proto/src/access_control.rs —
+// denied iff inside some deny network and inside no allow network)
+
+/// (deny list, allow list) choices for the SERVER filter and for the ANSWER filter.
+const SERVER_DENY: [&[&str]; 3] = [&[], &["6.6.7.0/24"], &["0.0.0.0/0"]];
+const SERVER_ALLOW: [&[&str]; 3] = [&[], &["6.6.7.1/32"], &["11.0.0.0/8"]];
+const ANSWER_DENY: [&[&str]; 3] = [&[], &["6.6.8.0/24"], &["0.0.0.0/0"]];
+const ANSWER_ALLOW: [&[&str]; 3] = [&[], &["6.6.8.1/32"], &["12.0.0.0/8", "11.0.0.0/8"]];
+/// the configuration every other family runs with
+const DEFAULT_FILTERS: [usize; 4] = [1, 0, 1, 0];
+
+fn nets(v: &[&str]) -> Vec<ipnet::IpNet> {
+    v.iter().map(|s| s.parse().unwrap()).collect()
+}
+
+fn ref_denied(ip: IpAddr, deny: &[&str], allow: &[&str]) -> bool {
+    let inside = |v: &[&str]| nets(v).iter().any(|n| n.contains(&ip));
+    inside(deny) && !inside(allow)
+}
+
+fn server_denied(ip: IpAddr, f: &[usize; 4]) -> bool {
+    ref_denied(ip, SERVER_DENY[f[0]], SERVER_ALLOW[f[1]])
+}
+
+fn answer_denied(ip: IpAddr, f: &[usize; 4]) -> bool {
+    ref_denied(ip, ANSWER_DENY[f[2]], ANSWER_ALLOW[f[3]])
+}
+
+/// All filter configurations the builder accepts (an allow list needs a deny list to override).
+fn filter_configs(full_product: bool) -> Vec<[usize; 4]> {
+    let ok = |d: usize, a: usize| !(d == 0 && a != 0);
+    let mut out = vec![];
+    for sd in 0..3 {
+        for sa in 0..3 {
+            for ad in 0..3 {
+                for aa in 0..3 {
+                    if !ok(sd, sa) || !ok(ad, aa) {
+                        continue;
+                    }
+                    let f = [sd, sa, ad, aa];
+                    // quick: one of the two filters at its default
+                    if full_product || (sd == DEFAULT_FILTERS[0] && sa == DEFAULT_FILTERS[1]) || (ad == DEFAULT_FILTERS[2] && aa == DEFAULT_FILTERS[3]) {
+                        out.push(f);
+                    }
+                }
+            }
+        }
+    }
+    out
 }
 
 // ------------------------------------------------------------------------------------------
@@ -522,7 +589,7 @@ impl Run {
     }
 }
 
-fn execute(inet: Arc<Internet>, limits: (u8, u8), case_rand: bool, queries: &[(Name, RecordType)]) -> Run {
+fn execute(inet: Arc<Internet>, limits: (u8, u8), case_rand: bool, filters: [usize; 4], queries: &[(Name, RecordType)]) -> Run {
     vsim::install_hook_clock_tokio();
     let rt = vsim::rt();
     let run = rt.block_on(async {
@@ -530,10 +597,10 @@ fn execute(inet: Arc<Internet>, limits: (u8, u8), case_rand: bool, queries: &[(N
         let opts = RecursorOptions {
             recursion_limit: limits.0,
             ns_recursion_limit: limits.1,
-            allow_server: vec![],
-            deny_server: vec!["6.6.7.0/24".parse().unwrap()],
-            allow_answers: vec![],
-            deny_answers: vec!["6.6.8.0/24".parse().unwrap()],
+            allow_server: nets(SERVER_ALLOW[filters[1]]),
+            deny_server: nets(SERVER_DENY[filters[0]]),
+            allow_answers: nets(ANSWER_ALLOW[filters[3]]),
+            deny_answers: nets(ANSWER_DENY[filters[2]]),
             ns_cache_size: 64,
             response_cache_size: 4096,
             case_randomization: case_rand,
@@ -568,8 +635,8 @@ fn execute(inet: Arc<Internet>, limits: (u8, u8), case_rand: bool, queries: &[(N
     run
 }
 
-fn execute_caught(inet: Arc<Internet>, limits: (u8, u8), case_rand: bool, queries: &[(Name, RecordType)]) -> Run {
-    match vcore::catch(|| execute(inet, limits, case_rand, queries)) {
+fn execute_caught(inet: Arc<Internet>, limits: (u8, u8), case_rand: bool, filters: [usize; 4], queries: &[(Name, RecordType)]) -> Run {
+    match vcore::catch(|| execute(inet, limits, case_rand, filters, queries)) {
         Ok(r) => r,
         Err(p) => Run {
             steps: vec![Step {
@@ -598,7 +665,7 @@ fn exchange_bound(limits: (u8, u8), servers: usize) -> u64 {
 
 /// Clauses that hold for every run: completion, explicit exchange bound, filters, and that no
 /// address outside the simulated internet is contacted.
-fn judge_common(inet: &Internet, limits: (u8, u8), run: &Run, l: &mut Local, wit: &dyn Fn() -> Value) {
+fn judge_common(inet: &Internet, limits: (u8, u8), filters: &[usize; 4], run: &Run, l: &mut Local, wit: &dyn Fn() -> Value) {
     for st in &run.steps {
         match &st.outcome {
             Outcome::Hung => l.violation("no-termination", "a resolution did not complete within the virtual-time horizon", wit),
@@ -617,11 +684,21 @@ fn judge_common(inet: &Internet, limits: (u8, u8), run: &Run, l: &mut Local, wit
             );
         }
         for e in &st.log {
+            if server_denied(e.ip, filters) {
+                if e.ip == IpAddr::V4(inet.servers[0].ip) {
+                    // the root hints are configured addresses, not learned ones: not judged
+                    l.outcome("obs:root-hint-inside-a-denied-network-contacted");
+                } else {
+                    l.violation("denied-server-contacted", &format!("{} is denied by the server filter but was sent {} {}", e.ip, e.qname, e.qtype), wit);
+                }
+                continue;
+            }
             if inet.server_by_ip(e.ip).is_some() {
                 continue;
             }
             if is_denied_server(e.ip) {
-                l.violation("denied-server-contacted", &format!("{} is denied by the server filter but was sent {} {}", e.ip, e.qname, e.qtype), wit);
+                // 6.6.7.x with a filter configuration that permits it: the attacker's in-bailiwick host
+                l.outcome("obs:permitted-attacker-host-contacted");
                 continue;
             }
             // an address that only the attacker's injected records carry: which record carried it?
@@ -676,7 +753,7 @@ fn judge_common(inet: &Internet, limits: (u8, u8), run: &Run, l: &mut Local, wit
         }
         for (sec, r) in st.outcome.returned() {
             if let Some(ip) = record_ip(r) {
-                if is_denied_answer(ip) {
+                if answer_denied(ip, filters) {
                     l.violation(&format!("denied-answer-returned:{sec}"), &format!("{} {} is denied by the answer filter", r.name, r.data), wit);
                 }
             }
@@ -765,6 +842,8 @@ struct CaseDesc {
     warm: bool,
     /// how the hostile servers treat their genuine response (index into MODES)
     mode: usize,
+    /// indices into SERVER_DENY, SERVER_ALLOW, ANSWER_DENY, ANSWER_ALLOW
+    filters: [usize; 4],
 }
 
 impl CaseDesc {
@@ -779,6 +858,8 @@ impl CaseDesc {
             "warm": self.warm,
             "mode": self.mode,
             "mode_name": MODES[self.mode],
+            "filters": self.filters,
+            "filters_text": {"deny_server": SERVER_DENY[self.filters[0]], "allow_server": SERVER_ALLOW[self.filters[1]], "deny_answers": ANSWER_DENY[self.filters[2]], "allow_answers": ANSWER_ALLOW[self.filters[3]]},
         })
     }
     fn from_json(v: &Value) -> CaseDesc {
@@ -791,6 +872,7 @@ impl CaseDesc {
             case_rand: v["case_randomization"].as_bool().unwrap_or(false),
             warm: v["warm"].as_bool().unwrap_or(false),
             mode: v["mode"].as_u64().unwrap_or(0) as usize,
+            filters: v["filters"].as_array().map(|a| [a[0].as_u64().unwrap() as usize, a[1].as_u64().unwrap() as usize, a[2].as_u64().unwrap() as usize, a[3].as_u64().unwrap() as usize]).unwrap_or(DEFAULT_FILTERS),
         }
     }
     fn internet(&self) -> Internet {
@@ -853,7 +935,7 @@ fn run_and_judge(desc: &CaseDesc, honest: Option<&Run>, l: &mut Local) -> Run {
     // supervising parent (vcore::supervise) reports the marked case as a termination violation
     vcore::mark_case(l.worker, || desc.to_json().to_string());
     let inet = Arc::new(desc.internet());
-    let run = execute_caught(inet.clone(), desc.limits, desc.case_rand, &desc.parsed_queries());
+    let run = execute_caught(inet.clone(), desc.limits, desc.case_rand, desc.filters, &desc.parsed_queries());
     let wit = || {
         let mut j = desc.to_json();
         j["observed"] = run.to_json();
@@ -863,7 +945,7 @@ fn run_and_judge(desc: &CaseDesc, honest: Option<&Run>, l: &mut Local) -> Run {
         eprintln!("{}", serde_json::to_string_pretty(&wit()).unwrap());
     }
     let main_idx = if desc.warm && run.steps.len() > 1 { 1 } else { 0 };
-    judge_common(&inet, desc.limits, &run, l, &wit);
+    judge_common(&inet, desc.limits, &desc.filters, &run, l, &wit);
     let skip_provenance = matches!(desc.spec.family, Family::Deep { .. });
     if !skip_provenance {
         // a warm-up is a first-time resolution like the main query: same phase label
@@ -929,14 +1011,37 @@ fn run_and_judge(desc: &CaseDesc, honest: Option<&Run>, l: &mut Local) -> Run {
 // ------------------------------------------------------------------------------------------
 // stub side
 
+/// Shapes of a hostile / odd upstream of the stub resolver.
+const STUB_SHAPES: [&str; 7] = [
+    "cname-chain",
+    "srv-chain",                 // the address query is answered with SRV records, whose target is followed like an alias
+    "plus-unrelated-records",    // every response also carries a foreign CNAME and a foreign address
+    "reverse-order",             // the CNAMEs of one response in reverse chain order
+    "alias-and-address",         // every alias owner also has an address record in the response
+    "duplicated-cnames",         // every CNAME twice
+    "cname-to-out-of-question",  // the chain leaves the queried domain (other TLD) at every hop
+];
+
 #[derive(Clone)]
 struct StubConn {
-    /// chain length (number of CNAME hops before the address), or loop length
+    shape: usize,
+    /// chain length (number of hops before the address), or loop length
     n: usize,
     is_loop: bool,
-    /// how many CNAMEs of the chain the upstream puts into one response
+    /// how many hops of the chain the upstream puts into one response
     per_response: usize,
+    ttl: u32,
     log: Arc<Mutex<Vec<String>>>,
+}
+
+impl StubConn {
+    fn name(&self, i: usize) -> Name {
+        if self.shape == 6 && i % 2 == 1 {
+            n(&format!("c{i}.elsewhere."))
+        } else {
+            n(&format!("c{i}.s."))
+        }
+    }
 }
 
 impl DnsHandle for StubConn {
@@ -944,27 +1049,63 @@ impl DnsHandle for StubConn {
     type Runtime = TokioRuntimeProvider;
     fn send(&self, request: DnsRequest) -> Self::Response {
         let q = request.queries[0].clone();
-        self.log.lock().unwrap().push(q.name.to_ascii());
+        let asked = {
+            let mut l = self.log.lock().unwrap();
+            l.push(q.name.to_ascii());
+            l.len()
+        };
         let mut m = Message::new(request.id, MessageType::Response, OpCode::Query);
         m.add_query(q.clone());
+        let ttl = self.ttl;
+        let with_ttl = |mut r: Record| {
+            r.ttl = ttl;
+            r
+        };
         let label = q.name.to_ascii();
         let idx = label.strip_prefix('c').and_then(|s| s.split('.').next()).and_then(|s| s.parse::<usize>().ok());
-        let nm = |i: usize| n(&format!("c{i}.s."));
+        // a runaway client is cut off (and reported through the query count)
+        if asked > 64 {
+            m.metadata.response_code = ResponseCode::ServFail;
+            return Box::pin(stream::once(async move { DnsResponse::from_message(m).map_err(NetError::from) }));
+        }
         match idx {
             Some(mut i) => {
+                let mut hops: Vec<Record> = vec![];
                 for _ in 0..self.per_response.max(1) {
                     if !self.is_loop && i >= self.n {
                         break;
                     }
                     let next = if self.is_loop { (i + 1) % self.n } else { i + 1 };
-                    m.add_answer(rec_cname(&nm(i), &nm(next)));
+                    let hop = if self.shape == 1 {
+                        Record::from_rdata(self.name(i), ttl, RData::SRV(hickory_proto::rr::rdata::SRV::new(0, 0, 80, self.name(next))))
+                    } else {
+                        with_ttl(rec_cname(&self.name(i), &self.name(next)))
+                    };
+                    hops.push(hop);
+                    if self.shape == 4 {
+                        hops.push(with_ttl(rec_a(&self.name(i), Ipv4Addr::new(12, 8, 8, 1))));
+                    }
+                    if self.shape == 5 {
+                        hops.push(hops.last().unwrap().clone());
+                    }
                     i = next;
                     if self.is_loop && i == 0 {
                         break;
                     }
                 }
+                if self.shape == 3 {
+                    hops.reverse();
+                }
+                for h in hops {
+                    m.add_answer(h);
+                }
+                if self.shape == 2 {
+                    m.add_answer(with_ttl(rec_cname(&n("foreign.s."), &n("c0.s."))));
+                    m.add_answer(with_ttl(rec_a(&n("other.s."), Ipv4Addr::new(12, 8, 8, 9))));
+                    m.add_additional(with_ttl(rec_a(&n("c0.s."), Ipv4Addr::new(12, 8, 8, 7))));
+                }
                 if !self.is_loop && i >= self.n {
-                    m.add_answer(rec_a(&nm(self.n), Ipv4Addr::new(12, 8, 8, 8)));
+                    m.add_answer(with_ttl(rec_a(&self.name(self.n), Ipv4Addr::new(12, 8, 8, 8))));
                 }
             }
             None => m.metadata.response_code = ResponseCode::NXDomain,
@@ -973,29 +1114,34 @@ impl DnsHandle for StubConn {
     }
 }
 
-/// (upstream queries, class) of one stub lookup.
-fn stub_run(n_hops: usize, is_loop: bool, per_response: usize, preserve: bool) -> (usize, String) {
+/// Per lookup (the same name is looked up `lookups` times on one client): (upstream queries, class).
+fn stub_run(shape: usize, n_hops: usize, is_loop: bool, per_response: usize, preserve: bool, ttl: u32, lookups: usize) -> Vec<(usize, String)> {
     let rt = vsim::rt();
     let log = Arc::new(Mutex::new(vec![]));
-    let conn = StubConn { n: n_hops, is_loop, per_response, log: log.clone() };
-    let res = rt.block_on(async {
+    let conn = StubConn { shape, n: n_hops, is_loop, per_response, ttl, log: log.clone() };
+    // (shape 1 answers the address query with SRV records: the client follows their targets)
+    let qtype = RecordType::A;
+    rt.block_on(async {
         let client = CachingClient::new(64, conn, preserve);
-        let fut: Pin<Box<dyn Future<Output = _>>> = Box::pin(client.lookup(Query::new(n("c0.s."), RecordType::A), DnsRequestOptions::default()));
-        tokio::time::timeout(HORIZON, fut).await
-    });
-    let class = match res {
-        Err(_) => "hung".to_string(),
-        Ok(Ok(lookup)) => {
-            if lookup.answers().iter().any(|r| r.record_type() == RecordType::A) {
-                "answer".into()
-            } else {
-                "ok-without-address".into()
-            }
+        let mut out = vec![];
+        for _ in 0..lookups {
+            let before = log.lock().unwrap().len();
+            let fut: Pin<Box<dyn Future<Output = _>>> = Box::pin(client.lookup(Query::new(n("c0.s."), qtype), DnsRequestOptions::default()));
+            let class = match tokio::time::timeout(HORIZON, fut).await {
+                Err(_) => "hung".to_string(),
+                Ok(Ok(lookup)) => {
+                    if lookup.answers().iter().any(|r| r.record_type() == RecordType::A) {
+                        "answer".into()
+                    } else {
+                        "ok-without-address".into()
+                    }
+                }
+                Ok(Err(_)) => "error".into(),
+            };
+            out.push((log.lock().unwrap().len() - before, class));
         }
-        Ok(Err(_)) => "error".into(),
-    };
-    let count = log.lock().unwrap().len();
-    (count, class)
+        out
+    })
 }
 
 // ------------------------------------------------------------------------------------------
@@ -1096,26 +1242,13 @@ fn main() {
     if let Some((_key, case)) = ctx.replay_case() {
         ctx.with_local(|l| {
             if case.get("stub").is_some() {
-                let (nn, lp, per, pres) = (
-                    case["stub"]["n"].as_u64().unwrap() as usize,
-                    case["stub"]["loop"].as_bool().unwrap(),
-                    case["stub"]["per_response"].as_u64().unwrap() as usize,
-                    case["stub"]["preserve"].as_bool().unwrap(),
-                );
+                let st = &case["stub"];
+                let g = |k: &str| st[k].as_u64().unwrap_or(0) as usize;
                 l.eval();
-                let (count, class) = stub_run(nn, lp, per, pres);
-                if count > 8 {
-                    l.violation("stub-alias-chasing-unbounded", &format!("{count} upstream queries, result {class}"), || case.clone());
-                }
-                return;
-            }
-            // replay of a process abort: re-run every case a worker was executing when the
-            // process died (the culprit aborts again and the supervisor reports it again)
-            if let Some(list) = case.get("crashed_cases").and_then(|v| v.as_array()) {
-                for c in list {
-                    if c.get("graph").is_some() {
-                        let desc = CaseDesc::from_json(c);
-                        run_and_judge(&desc, None, l);
+                let runs = stub_run(g("shape"), g("n"), st["loop"].as_bool().unwrap_or(false), g("per_response").max(1), st["preserve"].as_bool().unwrap_or(false), st["ttl"].as_u64().unwrap_or(300) as u32, 2);
+                for (count, class) in runs {
+                    if count > 8 {
+                        l.violation(&format!("stub-alias-chasing-unbounded:{}", STUB_SHAPES[g("shape")]), &format!("{count} upstream queries, result {class}"), || case.clone());
                     }
                 }
                 return;
@@ -1125,7 +1258,7 @@ fn main() {
                 let mut h = desc.clone();
                 h.hostile = None;
                 h.inj.clear();
-                execute_caught(Arc::new(h.internet()), h.limits, h.case_rand, &h.parsed_queries())
+                execute_caught(Arc::new(h.internet()), h.limits, h.case_rand, h.filters, &h.parsed_queries())
             });
             run_and_judge(&desc, honest.as_ref(), l);
         });
@@ -1138,9 +1271,10 @@ fn main() {
          x 12 queries (A, AAAA, NS, SOA, ANY, CNAME, DS; existing, missing, alias names) x limits {(4,4),(8,8),(24,24)}, honest; (B) every graph x hostile zone in {t., o., l.t., v.o.} (all its servers) x injection kind (12: victim A, victim-zone NS+glue, victim-parent NS+glue, root NS+glue, \
          CNAME->victim + victim A, in-bailiwick A at a denied answer address, in-bailiwick NS + glue at a denied server address, sibling A, victim NS + victim glue, NS for the hostile zone's own names naming a victim-zone host + forged glue for it, victim CNAME, victim-zone SOA) x response mode {append; on graphs near the plain one (thorough: all single-server graphs) also: genuine records dropped with NOERROR / with NXDOMAIN, AA bit flipped, genuine records re-owned to the victim} x section {answer, authority, additional} added to EVERY response \
          x main query (cold, and - when the hostile zone is the one holding the queried name - also after a warm-up query for another name of that zone, i.e. with every ancestor's pool already in the name-server cache), followed on the same recursor by 3-4 follow-up queries for names outside the hostile subtree; thorough adds all unordered pairs of injections on the plain graph and on every graph that differs from it in at most one zone's NS style; \
+         (F) every filter configuration the builder accepts out of deny_server {none, 6.6.7.0/24, 0.0.0.0/0} x allow_server {none, 6.6.7.1/32, 11.0.0.0/8} x deny_answers {none, 6.6.8.0/24, 0.0.0.0/0} x allow_answers {none, 6.6.8.1/32, 12/8+11/8} (quick: one filter at its default; thorough: the full product, 49) x hostile zone {ROOT, t., l.t.} x filter-relevant injections x 5 queries (each asked twice), judged against the documented deny/allow table; \
          (C) lame kinds {REFUSED, upward referral, self referral, empty NOERROR, timeout} x zone x {1 server, 2 servers both lame, 2 servers first lame}; \
          (D) CNAME chains 1..70 (in-zone / cross-zone, server chases in-zone or not), CNAME loops 1..3, NS-for-NS chains 1..30, glueless cycles 1..8 (1 NS name) / 1..6 (2 NS names), delegation depth 1..40, each x limits; \
-         (E) stub CachingClient: CNAME chains 1..20, loops 1..3, 1-2 CNAMEs per response, preserve_intermediates on/off. \
+         (E) stub CachingClient over a hostile/odd upstream: shapes {CNAME chain, SRV-target chain, plus foreign CNAME/address records, reverse record order, alias owner also has an address, duplicated CNAMEs, chain leaving the queried domain at every hop} x chains 1..20 / loops 1..3 x 1-2 hops per response x preserve_intermediates on/off x TTL {300, 0}, the name looked up twice on the same client. \
          Oracle: completes; upstream exchanges <= 64*(recursion_limit+ns_recursion_limit+64)*servers and constant in n for every n beyond limit+2; no exchange with an attacker/denied/unknown address; no denied address returned; \
          every returned record (incl. SOA/authorities of negative results) is published data or lies inside the hostile zone; follow-ups equal the attacker-free run; stub <= 8 upstream queries. \
          Non-trivial = distinct (graph, hostile zone, injection, query) in which a hostile server was actually contacted.",
@@ -1157,13 +1291,13 @@ fn main() {
     for s in &specs {
         for lim in limits_all {
             for q in &queries {
-                honest_descs.push(CaseDesc { spec: s.clone(), limits: lim, hostile: None, inj: vec![], queries: vec![(q.0.to_string(), q.1.to_string())], case_rand: false, warm: false, mode: 0 });
+                honest_descs.push(CaseDesc { spec: s.clone(), limits: lim, hostile: None, inj: vec![], queries: vec![(q.0.to_string(), q.1.to_string())], case_rand: false, warm: false, mode: 0, filters: DEFAULT_FILTERS });
             }
         }
     }
     for s in lame_specs() {
         for q in &queries {
-            honest_descs.push(CaseDesc { spec: s.clone(), limits: (8, 8), hostile: None, inj: vec![], queries: vec![(q.0.to_string(), q.1.to_string())], case_rand: false, warm: false, mode: 0 });
+            honest_descs.push(CaseDesc { spec: s.clone(), limits: (8, 8), hostile: None, inj: vec![], queries: vec![(q.0.to_string(), q.1.to_string())], case_rand: false, warm: false, mode: 0, filters: DEFAULT_FILTERS });
         }
     }
     ctx.set("graphs", json!(specs.len()));
@@ -1173,7 +1307,7 @@ fn main() {
         let run = run_and_judge(d, None, l);
         let order_dependent = d.spec.lame.map(|(_, all, _)| !all).unwrap_or(false);
         if i % 8 == 0 && !order_dependent {
-            let again = execute_caught(Arc::new(d.internet()), d.limits, d.case_rand, &d.parsed_queries());
+            let again = execute_caught(Arc::new(d.internet()), d.limits, d.case_rand, d.filters, &d.parsed_queries());
             let inet = d.internet();
             if again.digest(&inet) != run.digest(&inet) {
                 ctx.machinery_failure(&format!("nondeterminism: {} gave two different observations", d.to_json()));
@@ -1190,8 +1324,8 @@ fn main() {
 
     // the plain graph must resolve: otherwise everything below is vacuous
     {
-        let d = CaseDesc { spec: Spec::base(), limits: (8, 8), hostile: None, inj: vec![], queries: vec![("www.l.t.".into(), "A".into()), ("alias.l.t.".into(), "A".into())], case_rand: false, warm: false, mode: 0 };
-        let run = execute_caught(Arc::new(d.internet()), d.limits, d.case_rand, &d.parsed_queries());
+        let d = CaseDesc { spec: Spec::base(), limits: (8, 8), hostile: None, inj: vec![], queries: vec![("www.l.t.".into(), "A".into()), ("alias.l.t.".into(), "A".into())], case_rand: false, warm: false, mode: 0, filters: DEFAULT_FILTERS };
+        let run = execute_caught(Arc::new(d.internet()), d.limits, d.case_rand, d.filters, &d.parsed_queries());
         let ok = run.steps.iter().all(|s| matches!(&s.outcome, Outcome::Ok { answers, .. } if answers.iter().any(|r| r.record_type() == RecordType::A)));
         if !ok {
             ctx.machinery_failure(&format!("vacuous: the plain graph does not resolve: {}", run.to_json()));
@@ -1204,7 +1338,7 @@ fn main() {
         let mut cases = vec![];
         for s in specs.iter().filter(|s| s.style.iter().sum::<usize>() <= 1) {
             for q in &queries {
-                cases.push(CaseDesc { spec: s.clone(), limits: (8, 8), hostile: None, inj: vec![], queries: vec![(q.0.to_string(), q.1.to_string())], case_rand: true, warm: false, mode: 0 });
+                cases.push(CaseDesc { spec: s.clone(), limits: (8, 8), hostile: None, inj: vec![], queries: vec![(q.0.to_string(), q.1.to_string())], case_rand: true, warm: false, mode: 0, filters: DEFAULT_FILTERS });
             }
         }
         ctx.set("case_randomization_cases", json!(cases.len()));
@@ -1214,7 +1348,7 @@ fn main() {
             let mut plain = d.clone();
             plain.case_rand = false;
             let inet = d.internet();
-            let reference = execute_caught(Arc::new(plain.internet()), plain.limits, false, &plain.parsed_queries());
+            let reference = execute_caught(Arc::new(plain.internet()), plain.limits, false, plain.filters, &plain.parsed_queries());
             if reference.digest(&inet) != run.digest(&inet) {
                 ctx.machinery_failure(&format!("0x20 leak: {} differs from the run without case randomisation", d.to_json()));
             }
@@ -1227,11 +1361,13 @@ fn main() {
     let inj_limits = (8u8, 8u8);
     let mut refs: Vec<(CaseDesc, usize)> = vec![];
     for s in &specs {
+        // quick: the query-type extension only on the graphs near the plain one
+        let nq = if thorough || (s.nserv == 1 && s.style.iter().filter(|x| **x != 0).count() <= 1) { queries.len() } else { 8 };
         for hz in [T, O, LT, VO] {
-            for q in &queries {
+            for q in queries.iter().take(nq) {
                 // the zone the main query's name lives in (its first label stripped, unless it asks
                 // for the NS set of the zone itself)
-                let qzone = if q.1 == "NS" { q.0.to_string() } else { q.0.split_once('.').map(|x| x.1.to_string()).unwrap_or_default() };
+                let qzone = if q.1 == "NS" || q.1 == "SOA" { q.0.to_string() } else { q.0.split_once('.').map(|x| x.1.to_string()).unwrap_or_default() };
                 for warm in [false, true] {
                     // the warm variant only matters when the hostile zone is the one that is
                     // asked for the main query's (then only uncached) label
@@ -1246,7 +1382,7 @@ fn main() {
                     qs.extend(followups(hz));
                     // and the main query once more: what the first resolution left in the caches
                     qs.push((q.0.to_string(), q.1.to_string()));
-                    refs.push((CaseDesc { spec: s.clone(), limits: inj_limits, hostile: None, inj: vec![], queries: qs, case_rand: false, warm, mode: 0 }, hz));
+                    refs.push((CaseDesc { spec: s.clone(), limits: inj_limits, hostile: None, inj: vec![], queries: qs, case_rand: false, warm, mode: 0, filters: DEFAULT_FILTERS }, hz));
                 }
             }
         }
@@ -1255,7 +1391,7 @@ fn main() {
     ctx.par_run(refs.len() as u64, 8, |i, l| {
         let (d, _) = &refs[i as usize];
         l.eval();
-        let run = execute_caught(Arc::new(d.internet()), d.limits, d.case_rand, &d.parsed_queries());
+        let run = execute_caught(Arc::new(d.internet()), d.limits, d.case_rand, d.filters, &d.parsed_queries());
         *ref_runs[i as usize].lock().unwrap() = Some(run);
     });
     let ref_runs: Vec<Run> = ref_runs.into_iter().map(|m| m.into_inner().unwrap().unwrap()).collect();
@@ -1271,6 +1407,10 @@ fn main() {
         }
         let near_plain = d.spec.nserv == 1 && d.spec.style.iter().filter(|x| **x != 0).count() <= 1;
         for k in 0..KINDS.len() {
+            // quick: the two newest record-type kinds only on the graphs near the plain one
+            if !thorough && !near_plain && k >= 10 {
+                continue;
+            }
             for s in 0..SECTIONS.len() {
                 jobs.push((ri, vec![(k, s)], 0));
                 // the hostile servers ALTER their genuine response instead of only adding to it
@@ -1308,7 +1448,7 @@ fn main() {
         }
         let run = run_and_judge(&d, Some(&ref_runs[*ri]), l);
         if i % 64 == 0 {
-            let again = execute_caught(Arc::new(d.internet()), d.limits, d.case_rand, &d.parsed_queries());
+            let again = execute_caught(Arc::new(d.internet()), d.limits, d.case_rand, d.filters, &d.parsed_queries());
             let inet = d.internet();
             // once an attacker address sits in a pool next to a genuine one, which of the two is
             // asked depends on hickory's random initial SRTT: such runs are already violations
@@ -1322,6 +1462,51 @@ fn main() {
             l.sample(json!({"family": "hostile", "case": d.to_json(), "outcomes": run.steps.iter().map(|s| s.outcome.class()).collect::<Vec<_>>() }));
         }
     });
+
+    // ---------------- (F) filter configurations x hostile zones incl. the root
+    {
+        let fgraphs: Vec<&Spec> = specs.iter().filter(|s| s.nserv == 1 && s.style.iter().filter(|x| **x != 0).count() <= if thorough { 1 } else { 0 }).collect();
+        let fqueries = [("www.l.t.", "A"), ("nx.l.t.", "A"), ("www.t.", "A"), ("www-root.", "A"), ("l.t.", "NS")];
+        let mut fjobs: Vec<CaseDesc> = vec![];
+        for s in &fgraphs {
+            for hz in [ROOT, T, LT] {
+                let kinds: &[usize] = if hz == ROOT { &[5, 6] } else { &[0, 4, 5, 6, 9] };
+                for k in kinds {
+                    for sec in 0..SECTIONS.len() {
+                        for q in &fqueries {
+                            for f in filter_configs(thorough) {
+                                fjobs.push(CaseDesc {
+                                    spec: (*s).clone(),
+                                    limits: (8, 8),
+                                    hostile: Some(hz),
+                                    inj: vec![(*k, sec)],
+                                    queries: vec![(q.0.to_string(), q.1.to_string()), (q.0.to_string(), q.1.to_string())],
+                                    case_rand: false,
+                                    warm: false,
+                                    mode: 0,
+                                    filters: f,
+                                });
+                            }
+                        }
+                    }
+                }
+            }
+        }
+        ctx.set("filter_configurations", json!(filter_configs(thorough).len()));
+        ctx.set("filter_cases", json!(fjobs.len()));
+        ctx.par_run(fjobs.len() as u64, 8, |i, l| {
+            let d = &fjobs[i as usize];
+            let run = run_and_judge(d, None, l);
+            l.nontrivial(fnv_str(&d.to_json().to_string()));
+            l.outcome("filter-configuration-case");
+            if d.hostile == Some(ROOT) {
+                l.outcome("hostile-root-case");
+            }
+            if i % 4001 == 0 {
+                l.sample(json!({"family": "filters", "case": d.to_json(), "outcome": run.steps[0].outcome.class()}));
+            }
+        });
+    }
 
     // ---------------- (D) termination families
     let fams = termination_families(thorough);
@@ -1338,7 +1523,7 @@ fn main() {
     ctx.par_run(tjobs.len() as u64, 2, |i, l| {
         let (fi, vi, lim) = tjobs[i as usize];
         let (nn, spec, q) = &fams[fi].1[vi];
-        let d = CaseDesc { spec: spec.clone(), limits: lim, hostile: None, inj: vec![], queries: vec![q.clone()], case_rand: false, warm: false, mode: 0 };
+        let d = CaseDesc { spec: spec.clone(), limits: lim, hostile: None, inj: vec![], queries: vec![q.clone()], case_rand: false, warm: false, mode: 0, filters: DEFAULT_FILTERS };
         let run = run_and_judge(&d, None, l);
         l.outcome(&format!("termination:{}:{}", fams[fi].0.split(':').next().unwrap(), run.steps[0].outcome.class()));
         counts.lock().unwrap().entry((fi, lim)).or_default().insert(*nn, (run.steps[0].log.len(), run.steps[0].outcome.class()));
@@ -1374,35 +1559,53 @@ fn main() {
     // ---------------- (E) stub
     ctx.with_local(|l| {
         let mut stub = serde_json::Map::new();
-        for is_loop in [false, true] {
-            for per in [1usize, 2] {
-                for preserve in [false, true] {
-                    let range: Vec<usize> = if is_loop { (1..=3).collect() } else { (1..=20).collect() };
-                    let mut by_n = vec![];
-                    for nn in range {
-                        l.eval();
-                        let (count, class) = stub_run(nn, is_loop, per, preserve);
-                        by_n.push((nn, count, class.clone()));
-                        let wit = || json!({"stub": {"n": nn, "loop": is_loop, "per_response": per, "preserve": preserve}, "upstream_queries": count, "result": class});
-                        if class == "hung" {
-                            l.violation("stub-no-termination", "CachingClient::lookup did not complete", wit);
+        for shape in 0..STUB_SHAPES.len() {
+            for is_loop in [false, true] {
+                for per in [1usize, 2] {
+                    for preserve in [false, true] {
+                        for ttl in [300u32, 0] {
+                            let range: Vec<usize> = if is_loop { (1..=3).collect() } else { (1..=20).collect() };
+                            let mut by_n = vec![];
+                            for nn in range {
+                                l.eval();
+                                // with TTL 0 nothing may be served from the cache: look the name up twice
+                                let runs = match vcore::catch(|| stub_run(shape, nn, is_loop, per, preserve, ttl, 2)) {
+                                    Ok(r) => r,
+                                    Err(p) => {
+                                        l.violation(&format!("stub-panic:{}", vcore::short_loc(&p.loc)), &p.msg, || json!({"stub": {"shape": shape, "n": nn, "loop": is_loop, "per_response": per, "preserve": preserve, "ttl": ttl}}));
+                                        continue;
+                                    }
+                                };
+                                for (li, (count, class)) in runs.iter().enumerate() {
+                                    let wit = || json!({"stub": {"shape": shape, "shape_name": STUB_SHAPES[shape], "n": nn, "loop": is_loop, "per_response": per, "preserve": preserve, "ttl": ttl}, "lookup": li, "upstream_queries": count, "result": class});
+                                    if class == "hung" {
+                                        l.violation("stub-no-termination", "CachingClient::lookup did not complete", wit);
+                                    }
+                                    if *count > 8 {
+                                        l.violation(&format!("stub-alias-chasing-unbounded:{}", STUB_SHAPES[shape]), &format!("{count} upstream queries for an alias chain of {nn}"), wit);
+                                    }
+                                    if is_loop && class == "answer" && shape != 4 && shape != 2 {
+                                        l.violation("stub-loop-answered", "an alias loop produced an address", wit);
+                                    }
+                                    l.outcome(&format!("stub:{class}"));
+                                }
+                                by_n.push((nn, runs[0].0, runs[0].1.clone(), runs[1].0));
+                            }
+                            if shape == 0 || ttl == 0 {
+                                stub.insert(
+                                    format!("{} loop={is_loop} per_response={per} preserve={preserve} ttl={ttl}", STUB_SHAPES[shape]),
+                                    json!(by_n.iter().map(|(n, c, k, c2)| format!("{n}:{c}:{k}:{c2}")).collect::<Vec<_>>().join(" ")),
+                                );
+                            }
                         }
-                        if count > 8 {
-                            l.violation("stub-alias-chasing-unbounded", &format!("{count} upstream queries for an alias chain of {nn}"), wit);
-                        }
-                        if is_loop && class == "answer" {
-                            l.violation("stub-loop-answered", "an alias loop produced an address", wit);
-                        }
-                        l.outcome(&format!("stub:{class}"));
                     }
-                    stub.insert(format!("loop={is_loop} per_response={per} preserve={preserve}"), json!(by_n.iter().map(|(n, c, k)| format!("{n}:{c}:{k}")).collect::<Vec<_>>().join(" ")));
                 }
             }
         }
         ctx.set("stub_measured", Value::Object(stub));
     });
 
-    for class in ["warm-cache-main-query", "hostile-server-contacted", "followup-equals-honest", "plateau-checked", "selftest:replayed-identically", "stub:error", "stub:answer", "main:answer", "main:nxdomain", "main:nodata"] {
+    for class in ["filter-configuration-case", "hostile-root-case", "mode:append+aa-flipped", "mode:reown-genuine-records-to-victim", "warm-cache-main-query", "hostile-server-contacted", "followup-equals-honest", "plateau-checked", "selftest:replayed-identically", "stub:error", "stub:answer", "main:answer", "main:nxdomain", "main:nodata"] {
         if ctx.outcome_count(class) == 0 {
             ctx.machinery_failure(&format!("vacuous run: outcome class '{class}' was never exercised"));
         }
